@@ -255,6 +255,7 @@ pub fn gen_op(rng: &mut Rng, cfg: &Config, class: usize, out: &mut Vec<Op>) {
             slot,
             site: rng.below(g::RESOURCE_VIEWS.len() as u64) as u16,
             salt: if rng.chance(2, 3) { Some(rng.next_u64()) } else { None },
+            via: if rng.chance(1, 3) { 1 + rng.below(2) as u8 } else { 0 },
         }),
         "res_getmut" => out.push(Op::ResGetMut { slot, which: rng.below(4) as u8, salt: rng.next_u64() }),
         "eq" => {
